@@ -108,7 +108,7 @@ def _cfg_for(name):
     def cfg(tier):
         a = pl.ADAPTERS[name]
         out = []
-        for n in ([3] if tier == "quick" else [3, 4]):
+        for n in (([3] if tier == "quick" else [3, 4]) if not getattr(a, "n", None) else [a.n]):
             for b in [1, 2, 3]:
                 if getattr(a, "slow", False) and (n > 3 or tier == "quick" and b > 2):
                     continue
